@@ -76,7 +76,7 @@ func checkC11(t *rapid.T, tr *twinRun) (skipOnDisk, dupAfterRecover, midInstall 
 			who := fmt.Sprintf("%s/inc%d(%s,%s)", r.name, inc.id, tr.kind, tr.variant)
 			p := inc.usm.pr()
 			proc, _ := inc.processed()
-			tr.checkIncarnation(t, r, inc, "c11")
+			tr.checkIncarnation(t, r, inc, "c11", true)
 			for _, u := range p.updates {
 				if tr.kind == kOnDisk && u.Index <= inc.openIndex {
 					vfhelp.Fail(t, "c11-ondisk-update-below-open", "%s: Update(%d) although Open returned %d", who, u.Index, inc.openIndex)
